@@ -130,7 +130,11 @@ def handle (j : Json) : Json :=
   match opOfJson opName (jget j "args") with
   | none => Json.mkObj [("id", id), ("agree", false), ("error", "unknown op"), ("spec", Json.arr #[]), ("class", "bad")]
   | some op =>
-    let (out, ms) := run (runOp op) flt pre
+    -- set-node whose capacity request the plugin itself rejects (natural refusal)
+    let prog : M Res4 Unit := match op with
+      | .setNode n c => if jbool (jget (jget j "args") "refused") then setNode n c true true else runOp op
+      | _ => runOp op
+    let (out, ms) := run prog flt pre
     let names := (namesOf pre ++ namesOf post ++ pre.pnodes ++ post.pnodes ++
       (match op with | .addNode n _ => [n] | .removeNode n => [n] | _ => [])).eraseDups
     let mtrace := sortStr (ms.tr.map (fun e => s!"{e.1}@{e.2.1}:{e.2.2}"))
@@ -151,6 +155,10 @@ def handle (j : Json) : Json :=
                (match jarr (jget j "lock_viol") with
                 | [] => []
                 | v :: _ => [s!"C10:usage-write-without-pod-lock:{opName}:{jstr v}"])
+    -- the plugin's COMPLETE capacity record (cpu map, cpu→NUMA map, NUMA memory incl. zero entries, memory)
+    let sigs (k : String) : List (String × String) :=
+      (jarr (jget (jget j k) "nodes")).map (fun n => (jstr (jget n "name"), jstr (jget n "capsig")))
+    let capSigSame := (sigs "pre").all (fun p => (sigs "post").all (fun q => p.1 != q.1 || p.2 == q.2))
     -- what differs between pre and post (for the parts of an operation that report failure)
     let whatDiffers : List String :=
       (if post.wls.all (fun w => pre.wls.any (fun w' => w'.id == w.id)) then [] else ["new-record-stays"]) ++
@@ -159,7 +167,7 @@ def handle (j : Json) : Json :=
       (if pre.cts.all (fun c => post.cts.any (fun c' => c'.id == c.id)) then [] else ["container-lost"]) ++
       (if pre.cts.all (fun c => !c.running || post.cts.all (fun c' => c'.id != c.id || c'.running)) then [] else ["container-not-running"]) ++
       (if names.all (fun n => decide (pre.usage n = post.usage n)) then [] else ["usage"]) ++
-      (if names.all (fun n => decide (pre.cap n = post.cap n)) then [] else ["capacity"]) ++
+      (if names.all (fun n => decide (pre.cap n = post.cap n)) && capSigSame then [] else ["capacity"]) ++
       (if sortStr pre.nodes == sortStr post.nodes then [] else ["nodes"]) ++
       (if sortStr pre.pnodes == sortStr post.pnodes then [] else ["plugin-records"])
     let effectTags (pfx : String) : List String := whatDiffers.map (fun d => s!"{pfx}:{d}")
